@@ -523,6 +523,9 @@ func VerifH19() {
 	}
 	hook := 0
 	closedAtHook, eventsAtHook := -1, 0
+	// the hook may itself fail: the Terminate still ends the session — once,
+	// nothing behind it is served, the connection is closed
+	hookFails := withHook && nondetBool()
 	if withHook {
 		opts = append(opts, TerminateConn(func(ctx context.Context) error {
 			hook++
@@ -530,8 +533,14 @@ func VerifH19() {
 				closedAtHook = conn.closed
 				eventsAtHook = len(w.events)
 			}
+			if hookFails {
+				return errors.New("verif: the terminate hook failed")
+			}
 			return nil
 		}))
+		if hookFails {
+			vReach("terminate-hook-that-fails")
+		}
 	}
 	// AUTH=1: clear-text password authentication whose validator accepts and
 	// hands back a context of its own making (derived from the one it was given,
@@ -755,12 +764,18 @@ func VerifH19x() {
 	hook := 0
 	w := &vWorld{parseMenu: 2, execMenu: 2}
 	opts := []OptionFn{MessageBufferSize(64)}
+	hookErr := error(nil)
+	if withHook && nondetBool() {
+		hookErr = errors.New("verif: the terminate hook failed")
+		vReach("hook-that-fails")
+	}
 	if withHook {
-		opts = append(opts, TerminateConn(func(ctx context.Context) error { hook++; return nil }))
+		opts = append(opts, TerminateConn(func(ctx context.Context) error { hook++; return hookErr }))
 	}
 	srv, err := NewServer(w.parse, opts...)
 	vAssert("newserver-ok", err == nil)
-	input := vMsgBytes('X', nil)
+	// (a Query is pipelined behind the Terminate: it is never served)
+	input := vCat(vMsgBytes('X', nil), vMsgBytes('Q', vCStr([]byte("q"))))
 	wd := &vWorld{srv: srv}
 	wd.conn = vNewConn(input)
 	wd.ses, wd.rd, wd.wr = vSession(srv, wd.conn)
@@ -769,8 +784,19 @@ func VerifH19x() {
 	vAssert("terminate-no-reply", got == "")
 	// (the command loop's own way of ending — nil and carry on into a closed
 	// connection, or io.EOF — is an internal matter; any other error is not)
-	vAssert("terminate-step-ok", stepErr == nil || stepErr == io.EOF)
-	vAssert("terminate-closes-connection", wd.conn.closed == 1)
+	vAssert("terminate-step-ok", stepErr == nil || stepErr == io.EOF || (hookErr != nil && stepErr == hookErr))
+	if hookErr != nil {
+		// a failed hook: the session ends by this error (the caller of the command
+		// loop, serve, closes the connection) or the loop has closed it itself —
+		// it does not carry on serving
+		vAssert("terminate-with-a-failed-hook-ends-the-session", stepErr != nil || wd.conn.closed == 1)
+		if stepErr == nil {
+			_, again := wd.step()
+			vAssert("nothing-behind-a-terminate-is-served", len(w.events) == 0 && again != nil)
+		}
+	} else {
+		vAssert("terminate-closes-connection", wd.conn.closed == 1)
+	}
 	if withHook {
 		vAssert("terminate-hook-exactly-once", hook == 1)
 		vReach("hook")
